@@ -84,13 +84,14 @@ macro "cell_tail" refs:term:max lvl:term:max : tactic => `(tactic| (
         rintro ⟨d, h⟩ r
         simp only [depthStep]
         cases CellInfo.getDepth r $lvl <;> simp
-        refine Option.bind_congr (fun db _ => ?_); split <;> simp_all), depthLoop]
+        refine Option.bind_congr (fun db _ => ?_); grind), depthLoop]
   cases List.mapM (fun r => CellInfo.getDepth r $lvl) $refs <;> simp only [Option.bind_some, Option.bind_none, Option.map_none]
   rename_i rd
   cases List.mapM (toBytesBE? 2) rd <;> simp only [Option.bind_some, Option.bind_none, Option.map_none]
   generalize List.foldl (fun d x => if x > d then x else d) 0 rd = d0
   by_cases hr : List.length $refs > 0 <;> by_cases hdd : d0 + 1 ≥ 1024 <;>
-    simp only [hr, hdd, if_true, if_false, Option.bind_some, Option.bind_none, Option.map_none]
+    simp only [ne_nil_eq_pos, length_ne_zero_eq_pos, length_ge_one_eq_pos, hr, hdd, if_true, if_false, Option.bind_some, Option.bind_none, Option.map_none]
+  all_goals try (split <;> (try omega) <;> simp only [Option.bind_some, Option.bind_none, Option.map_none])   -- another spelling of the depth test
   all_goals
     rw [foldlM_congr _ (hashFeed (fun r => CellInfo.getHash r $lvl)) (by
           intro h r
@@ -112,7 +113,7 @@ theorem calculate_hashes_eq (H : Bytes → Bytes) (mask : Nat) (kind : Int) (ref
   have hx : ∀ {β : Type} (k : Nat → Option β), ((if kind = 1 then some 1 else some (popcount mask + 1)).bind k)
       = k (if kind = 1 then 1 else popcount mask + 1) := by
     intro β k; split <;> rfl
-  rw [hx]
+  try rw [hx]
   have hoffI : ((popcount mask + 1 : Nat) : Int) - ((if kind = 1 then 1 else popcount mask + 1 : Nat) : Int) = (off : Int) := by
     subst hoff; simp only [kPruned, beq_iff_eq]; split <;> omega
   simp only [hoffI]
